@@ -7,6 +7,8 @@ replace github.com/sdcio/data-server => /repo
 replace github.com/openconfig/goyang v1.6.0 => github.com/sdcio/goyang v1.6.0-2
 
 require (
+	github.com/beevik/etree v1.5.0
+	github.com/openconfig/gnmi v0.13.0
 	github.com/sdcio/cache v0.0.35
 	github.com/sdcio/data-server v0.0.0
 	github.com/sdcio/schema-server v0.0.30
@@ -19,7 +21,6 @@ require (
 require (
 	cloud.google.com/go/compute/metadata v0.5.2 // indirect
 	github.com/AlekSi/pointer v1.2.0 // indirect
-	github.com/beevik/etree v1.5.0 // indirect
 	github.com/beorn7/perks v1.0.1 // indirect
 	github.com/bufbuild/protocompile v0.14.1 // indirect
 	github.com/cespare/xxhash/v2 v2.3.0 // indirect
@@ -53,7 +54,6 @@ require (
 	github.com/modern-go/concurrent v0.0.0-20180306012644-bacd9c7ef1dd // indirect
 	github.com/modern-go/reflect2 v1.0.2 // indirect
 	github.com/munnerz/goautoneg v0.0.0-20191010083416-a7dc8b61c822 // indirect
-	github.com/openconfig/gnmi v0.13.0 // indirect
 	github.com/openconfig/gnmic/pkg/api v0.1.8 // indirect
 	github.com/openconfig/gnmic/pkg/target v0.1.4 // indirect
 	github.com/openconfig/gnmic/pkg/types v0.1.2 // indirect
